@@ -7,6 +7,7 @@ import (
 	"runtime"
 	"sort"
 	"strings"
+	"time"
 
 	"github.com/bartossh/Computantis/src/cache"
 	"github.com/bartossh/Computantis/src/spice"
@@ -466,8 +467,10 @@ func c17Main(args []string) int {
 func c17Sequential(rep *common.Report) {
 	depth := 5
 	if common.Tier() == "thorough" {
-		depth = 7
+		depth = 6
 	}
+	stop := common.Deadline(60*time.Second, 6*time.Minute)
+	capped := false
 	var err error
 	c17Cache, err = cache.New(1<<20, 64)
 	if err != nil {
@@ -542,6 +545,10 @@ func c17Sequential(rep *common.Report) {
 		}
 	}
 	rec = func(prefix []string) {
+		if capped || (seqs%4096 == 0 && time.Now().After(stop)) {
+			capped = true
+			return
+		}
 		if len(prefix) > 0 {
 			run(prefix)
 		}
@@ -556,5 +563,9 @@ func c17Sequential(rep *common.Report) {
 	rep.Set("sequential_sequences", seqs)
 	rep.Set("sequential_calls", calls)
 	rep.Set("sequential_depth", depth)
+	rep.Set("sequential_exhaustive_within_depth", !capped)
+	if capped {
+		rep.Assume("sequential part: internal deadline hit, not every sequence of the stated depth was run")
+	}
 	rep.Set("sequential_distinct_outcomes", len(outcomes))
 }
